@@ -57,7 +57,9 @@ const DEFAULT_ANN: &str = "#[derive(AsnType, Debug, Clone, Decode, Encode, Parti
 
 pub fn all_opts() -> Vec<Opt> {
     let customs: [Vec<String>; 3] = [vec![], vec!["my::module::*".into()], vec!["path::to::Thing".into(), "other::{A, B}".into(), "core::fmt".into()]];
-    let annots: [Vec<String>; 7] = [
+    let annots: [Vec<String>; 8] = [
+        // a derive of a trait the generator implements by hand for all-DEFAULT types
+        vec![DEFAULT_ANN.into(), "#[derive(Default)]".into()],
         vec![DEFAULT_ANN.into()],
         // extra derives
         vec!["#[derive(AsnType, Debug, Clone, Decode, Encode, PartialEq, Eq, Hash, PartialOrd, Ord)]".into()],
@@ -211,6 +213,9 @@ pub fn gen_inputs(cfg: &RunCfg) -> Vec<Vec<M>> {
                 let name = format!("ChoM{set}x{m}x{c}e");
                 md.defs.push(D { text: format!("{name} ::= CHOICE {{ {} }}", alts.join(", ")), name, kind: Kind::Type, shape: "ChoM".into(), refs: vec![], fault: None });
             }
+            // types whose members all have DEFAULTs (the generator writes `impl Default` for them)
+            let name = format!("AllDef{set}x{m}e");
+            md.defs.push(D { text: format!("{name} ::= {} {{ a INTEGER DEFAULT 5, b BOOLEAN DEFAULT TRUE, c UTF8String DEFAULT \"x\" }}", if m % 2 == 0 { "SEQUENCE" } else { "SET" }), name, kind: Kind::Type, shape: "AllDef".into(), refs: vec![], fault: None });
             // a CHOICE with recursive alternatives (boxed payloads), and CHOICE values whose payload is / is not
             // a constant expression (lazily initialised under every flavour)
             if rng.chance(1, 2) {
